@@ -252,6 +252,7 @@ func (u *upstream) createClient(addr string) (*client, error) {
 	}
 
 	conn, err := netutil.Dial("tcp", addr, *u.cfg.ConnectTimeout)
+	vhook.At("redis.upstream.create_client.after_dial")
 	if err != nil {
 		return nil, err
 	}
